@@ -161,6 +161,8 @@ func (c *Cache) refresh() error {
 		devPrio, oldPrio := devSpec.GetPriority(), oldSpec.GetPriority()
 		switch {
 		case devPrio > oldPrio:
+			// a higher priority definition overrides any earlier conflict
+			delete(conflicts, name)
 			return false
 		case devPrio == oldPrio:
 			devPath, oldPath := devSpec.GetPath(), oldSpec.GetPath()
